@@ -38,6 +38,7 @@ FUNCS = [
     ("ubxmessage.py", "UBXMessage.config_poll"),
     ("ubxmessage.py", "UBXMessage._do_len_checksum"), ("ubxmessage.py", "UBXMessage.serialize"),
     ("ubxmessage.py", "UBXMessage.length"), ("ubxmessage.py", "UBXMessage.payload"),
+    ("ubxmessage.py", "UBXMessage._set_attribute_bits"), ("ubxmessage.py", "UBXMessage._set_attribute_bitfield"),
     ("ubxmessage.py", "UBXMessage.msg_cls"), ("ubxmessage.py", "UBXMessage.msg_id"), ("ubxmessage.py", "UBXMessage.msgmode"),
 ]
 
@@ -51,9 +52,10 @@ def enc(s: str) -> int:
 
 
 class Tr:
-    def __init__(self, params):
+    def __init__(self, params, kwparam=None):
         self.locals = set(params)
         self.names = {}
+        self.kwparam = kwparam
 
     def nm(self, s):
         self.names[s] = enc(s)
@@ -63,6 +65,18 @@ class Tr:
         raise Untranslatable(f"{type(node).__name__} at line {getattr(node, 'lineno', '?')} {why}")
 
     # ---- expressions
+    @staticmethod
+    def idx_suffix(n):
+        """`f"_{x:02d}"` → x, else None"""
+        if (isinstance(n, ast.JoinedStr) and len(n.values) == 2 and isinstance(n.values[0], ast.Constant)
+                and n.values[0].value == "_" and isinstance(n.values[1], ast.FormattedValue)
+                and n.values[1].conversion == -1 and isinstance(n.values[1].format_spec, ast.JoinedStr)
+                and len(n.values[1].format_spec.values) == 1
+                and isinstance(n.values[1].format_spec.values[0], ast.Constant)
+                and n.values[1].format_spec.values[0].value == "02d"):
+            return n.values[1].value
+        return None
+
     def dotted(self, node):
         """dotted global name of a callee / attribute chain rooted at a non-local name, else None"""
         parts = []
@@ -98,6 +112,10 @@ class Tr:
                 return f"(.str {self.nm(v)})"
             self.bad(n, "constant")
         if isinstance(n, ast.JoinedStr):
+            x = self.idx_suffix(n)
+            if x is not None:
+                # the `_NN` suffix of a group member's name: kept, as a call the host interprets
+                return f"(.call {self.nm('__sfx02d__')} [{self.E(x)}] [] [])"
             return ".ostr"
         if isinstance(n, ast.Name):
             # Python decides statically: a name the function assigns anywhere is local, every other name is module-level
@@ -152,11 +170,16 @@ class Tr:
         if isinstance(n, ast.IfExp):
             return f"(.ife {self.E(n.test)} {self.E(n.body)} {self.E(n.orelse)})"
         if isinstance(n, ast.Call):
-            if any(isinstance(a, ast.Starred) for a in n.args) or any(k.arg is None for k in n.keywords):
+            star = [k for k in n.keywords if k.arg is None]
+            if any(isinstance(a, ast.Starred) for a in n.args) or len(star) > 1 or (
+                    star and not (isinstance(star[0].value, ast.Name) and star[0].value.id == self.kwparam)):
                 self.bad(n, "star arguments")
-            args = self.lst([self.E(a) for a in n.args])
-            kwn = self.lst([self.nm(k.arg) for k in n.keywords])
-            kwv = self.lst([self.E(k.value) for k in n.keywords])
+            # `f(a, b, **kwargs)` with the enclosing function's own `**kwargs`: the dictionary object travels as one more
+            # positional argument (the callee's `**kwargs` parameter is its last parameter in the translation)
+            args = self.lst([self.E(a) for a in n.args] + ([f"(.var {self.nm(self.kwparam)})"] if star else []))
+            kws = [k for k in n.keywords if k.arg is not None]
+            kwn = self.lst([self.nm(k.arg) for k in kws])
+            kwv = self.lst([self.E(k.value) for k in kws])
             d = self.dotted(n.func)
             if d == "isinstance" and len(n.args) == 2 and isinstance(n.args[1], ast.Name) and not n.keywords:
                 # `isinstance(x, T)` with a built-in type name: the type is passed by name
@@ -217,6 +240,11 @@ class Tr:
             if type(n.op) not in ops:
                 self.bad(n, "augmented operator")
             if isinstance(n.target, ast.Name):
+                x = self.idx_suffix(n.value)
+                if x is not None and isinstance(n.op, ast.Add):
+                    # `name += f"_{i:02d}"`: appending an index suffix to a name, as a call the host interprets
+                    t = self.nm(n.target.id)
+                    return f"(.assign {t} (.call {self.nm('__addsfx__')} [(.var {t}), {self.E(x)}] [] []))"
                 return f"(.aug {self.nm(n.target.id)} .{ops[type(n.op)]} {self.E(n.value)})"
             if isinstance(n.target, ast.Attribute):
                 obj = self.E(n.target.value)
@@ -232,7 +260,19 @@ class Tr:
         if isinstance(n, ast.If):
             return f"(.if_ {self.E(n.test)} {self.B(n.body)} {self.B(n.orelse)})"
         if isinstance(n, ast.For):
-            if n.orelse or not isinstance(n.target, ast.Name):
+            if n.orelse:
+                self.bad(n, "for shape")
+            if isinstance(n.target, ast.Tuple) and all(isinstance(e, ast.Name) for e in n.target.elts):
+                # `for a, b in it:` = `for <item> in it: (a, b) = <item>; …`
+                for e in n.target.elts:
+                    self.locals.add(e.id)
+                tmp = "__item__"
+                body = self.B(n.body)
+                unpack = f"(.assignT {self.lst([self.nm(e.id) for e in n.target.elts])} (.var {self.nm(tmp)}))"
+                assert body.startswith("[") and body.endswith("]")
+                inner = body[1:-1].strip()
+                return f"(.for_ {self.nm(tmp)} {self.E(n.iter)} [{unpack}{', ' + inner if inner else ''}])"
+            if not isinstance(n.target, ast.Name):
                 self.bad(n, "for shape")
             self.locals.add(n.target.id)
             return f"(.for_ {self.nm(n.target.id)} {self.E(n.iter)} {self.B(n.body)})"
@@ -301,7 +341,7 @@ def main():
             facts["untranslatable"][qual] = "*args"
         stored = {x.id for x in ast.walk(node) if isinstance(x, ast.Name) and isinstance(x.ctx, ast.Store)}
         stored |= {h.name for h in ast.walk(node) if isinstance(h, ast.ExceptHandler) and h.name}
-        tr = Tr(list(allp) + sorted(stored))
+        tr = Tr(list(allp) + sorted(stored), a.kwarg.arg if a.kwarg else None)
         try:
             body = tr.B(node.body)
             legend = ", ".join(f"{k}={hex(v)}" for k, v in sorted(tr.names.items()))
